@@ -47,7 +47,22 @@ impl<const P: u128> ops::Mul<FiniteField<P>> for FiniteField<P> {
     type Output = FiniteField<P>;
 
     fn mul(self, rhs: FiniteField<P>) -> Self::Output {
-        FiniteField::new((self.v * rhs.v) % P)
+        // the direct product overflows u128 for the larger exported primes
+        if let Some(prod) = self.v.checked_mul(rhs.v) {
+            return FiniteField::new(prod % P);
+        }
+        // (x + y) mod P for x, y < P without overflow
+        let add_mod = |x: u128, y: u128| if x >= P - y { x - (P - y) } else { x + y };
+        // double-and-add
+        let (mut a, mut b, mut acc) = (self.v, rhs.v, 0u128);
+        while b > 0 {
+            if b & 1 == 1 {
+                acc = add_mod(acc, a);
+            }
+            a = add_mod(a, a);
+            b >>= 1;
+        }
+        FiniteField::new(acc)
     }
 }
 
